@@ -14,7 +14,7 @@ LEVEL = 'exploration'
 TITLE = 'Most compact applicable mode is chosen; a requested mode is honoured or refused'
 RULE = ('exhaustive over ALL byte strings of length 1..2, length 3 over an 8-byte alphabet, 4-6 byte strings made of a valid kanji/hanzi character and every class-boundary pair in every position, and over '
         'single code points (quick: class representatives and neighbours of every codec boundary; thorough: the whole BMP), each with '
-        'mode=None and with each of the five requested modes, and with versions M1..M4/1 for availability; the automatic mode must be '
+        'mode=None and with each of the five requested modes, with versions M1..M4/1 for availability and through make / make_qr / make_micro; the automatic mode must be '
         'the first applicable of numeric, alphanumeric, kanji, byte per the model predicate; a requested mode must be accepted iff '
         'representable and available, else ValueError; QRCode.mode must equal the decoded mode indicator. non-trivial = symbol returned')
 BOUNDS = {'quick': 'all 256 + 65536 byte inputs x 6 mode requests, 8^3 triples, ~700 code points', 'thorough': 'same byte inputs, all 65536 BMP code points'}
@@ -32,7 +32,7 @@ def codepoints(tier):
         return range(0x10000)
     pts = set()
     for c in (0x00, 0x1f, 0x20, 0x2f, 0x30, 0x39, 0x3a, 0x40, 0x41, 0x5a, 0x5b, 0x60, 0x61, 0x7e, 0x7f, 0x80, 0x9f, 0xa0, 0xa5, 0xff, 0x100,
-              0x391, 0x410, 0x44f, 0x2010, 0x203e, 0x20ac, 0x3000, 0x3001, 0x3041, 0x30a1, 0x30fc, 0x4e00, 0x4e66, 0x6f22, 0x70b9,
+              0x391, 0x410, 0x44f, 0x2010, 0x203e, 0x2160, 0x2460, 0x3231, 0x338f, 0x9ad9, 0xff5e, 0x2225, 0xffe2, 0x20ac, 0x3000, 0x3001, 0x3041, 0x30a1, 0x30fc, 0x4e00, 0x4e66, 0x6f22, 0x70b9,
               0x9fa0, 0xd7ff, 0xd800, 0xdfff, 0xe000, 0xff61, 0xff71, 0xff9f, 0xffe5, 0xfffd, 0xffff):
         for d in (-2, -1, 0, 1, 2):
             if 0 <= c + d <= 0xffff:
@@ -63,16 +63,19 @@ def gen_cases(tier):
         yield ('runs', n)
 
 
-def judge(content, data, mode, version, acc):
+ENTRY = {'make': segno.make, 'make_qr': segno.make_qr, 'make_micro': segno.make_micro}
+
+
+def judge(content, data, mode, version, acc, entry='make'):
     """data: expected bytes (None if the text is not encodable as requested)."""
-    case = ('one', content, mode, version)
+    case = ('one', content, mode, version) if entry == 'make' else ('one', content, mode, version, entry)
     kw = {}
     if mode is not None:
         kw['mode'] = mode
     if version is not None:
         kw['version'] = version
     try:
-        qr = segno.make(content, **kw)
+        qr = ENTRY[entry](content, **kw)
         exc = None
     except Exception as e:
         qr, exc = None, e
@@ -104,6 +107,10 @@ def judge(content, data, mode, version, acc):
                     fits = True
             if not fits:
                 must = 'refuse'
+    if entry == 'make_micro' and version is None and must != 'refuse':
+        if not any(m in ('numeric', 'alphanumeric', 'byte', 'kanji') for m in allowed):
+            must = 'refuse'                 # hanzi does not exist in Micro QR
+        allowed = {m for m in allowed if m != 'hanzi'} or allowed
     outcome = qr.mode if qr is not None else 'exc:' + C.exc_name(exc)
     acc.eval(case, nontrivial=qr is not None, outcome=(outcome, must), state=(tuple(sorted(allowed)), mode, version, must))
     acc.count('accepted' if qr is not None else 'refused')
@@ -118,6 +125,8 @@ def judge(content, data, mode, version, acc):
         return
     if qr.mode is not None:
         acc.add('modes_seen', (mode is None, qr.mode))
+    if (entry == 'make_micro') != bool(qr.is_micro) and entry != 'make':
+        acc.violation('wrong-symbology/%s' % entry, '%s(%r) returned %s' % (entry, content, qr.designator), case)
     if must == 'refuse':
         acc.violation('accepted-unrepresentable/%s' % mode, 'make(%r, mode=%r, version=%r) returned a %s symbol in mode %r; the bytes %r are not '
                       'representable/available in that mode' % (content, mode, version, qr.designator, qr.mode, data), case)
@@ -133,7 +142,7 @@ def judge(content, data, mode, version, acc):
         acc.violation('payload', 'payload %r != %r in mode %r' % (rep.payload, data, qr.mode), case)
 
 
-def all_modes(content, data, acc, versions=(None,)):
+def all_modes(content, data, acc, versions=(None,), entries=False):
     for m in (None,) + MODES:
         d = data
         if m == 'hanzi' and isinstance(content, str):
@@ -143,16 +152,19 @@ def all_modes(content, data, acc, versions=(None,)):
                 d = None
         for v in versions:
             judge(content, d, m, v, acc)
+        if entries:
+            for e in ('make_qr', 'make_micro'):
+                judge(content, d, m, None, acc, entry=e)
 
 
 def run_case(case, acc):
     kind = case[0]
     if kind == 'bytes':
-        all_modes(case[1], case[1], acc, versions=(None, 'M1', 'M2', 'M3', 'M4', 1) if case[2] else (None,))
+        all_modes(case[1], case[1], acc, versions=(None, 'M1', 'M2', 'M3', 'M4', 1) if case[2] else (None,), entries=True)
     elif kind == 'bpairs':
         for b in BOUNDARY:
             d = bytes([case[1], b])
-            all_modes(d, d, acc)
+            all_modes(d, d, acc, entries=True)
         for b in (0x30, 0x41, 0x40, 0xa1):
             d = bytes([case[1], b])
             all_modes(d, d, acc, versions=('M1', 'M2', 'M3', 'M4', 1))
@@ -188,14 +200,15 @@ def run_case(case, acc):
             d = (unit * 6)[:n]
             all_modes(d, d, acc, versions=(None, 'M3', 1))
     elif kind == 'one':
-        _, content, mode, version = case
+        content, mode, version = case[1], case[2], case[3]
+        entry = case[4] if len(case) > 4 else 'make'
         data = content if isinstance(content, bytes) else None
         if data is None:
             try:
                 data = content.encode('gb2312') if mode == 'hanzi' else Mo.expected_bytes(content)[0]
             except UnicodeError:
                 data = None
-        judge(content, data, mode, version, acc)
+        judge(content, data, mode, version, acc, entry=entry)
     else:
         raise ValueError(kind)
 
